@@ -122,6 +122,10 @@ pub struct ReaderCfg {
     /// end-of-file answer.
     #[serde(default)]
     pub eintr_at_eof: u8,
+    /// Once the genuine end of file has been reported, every further call fails with
+    /// this error (a closed pipe or socket polled again).
+    #[serde(default)]
+    pub err_after_eof: Option<IoKind>,
 }
 
 impl ReaderCfg {
@@ -133,6 +137,7 @@ impl ReaderCfg {
             err: None,
             early_eof: None,
             eintr_at_eof: 0,
+            err_after_eof: None,
         }
     }
 }
@@ -187,6 +192,9 @@ pub enum DiskFault {
     /// A block holds unrelated bytes (misdirected write, media corruption); the bytes
     /// are SplitMix64 output from `seed`.
     GarbageBlock { at: u32, len: u32, seed: u64 },
+    /// A block holds the bytes of another block of the same file (misdirected or stale
+    /// read/write).
+    CopyBlock { from: u32, to: u32, len: u32 },
 }
 
 // ---------------------------------------------------------------------------
@@ -225,6 +233,8 @@ ledger_kinds!(
     lost_block,
     dup_block,
     garbage_block,
+    copy_block,
+    read_err_after_eof,
     // bookkeeping (not faults)
     read_calls,
     write_calls,
@@ -266,13 +276,13 @@ impl Ledger {
             .sum()
     }
     pub fn read_destructive(&self) -> u64 {
-        self.get(K::read_err) + self.get(K::early_eof) + self.get(K::early_eof_resumed)
+        self.get(K::read_err) + self.get(K::early_eof) + self.get(K::early_eof_resumed) + self.get(K::read_err_after_eof)
     }
     pub fn write_destructive(&self) -> u64 {
         self.get(K::write_err) + self.get(K::write_zero) + self.get(K::flush_err)
     }
     pub fn storage_fired(&self) -> u64 {
-        [K::crash_write, K::truncate, K::bitflip, K::zero_block, K::lost_block, K::dup_block, K::garbage_block]
+        [K::crash_write, K::truncate, K::bitflip, K::zero_block, K::lost_block, K::dup_block, K::garbage_block, K::copy_block]
             .iter()
             .map(|&k| self.get(k))
             .sum()
@@ -360,6 +370,8 @@ pub struct SrcCore {
     err_fired: bool,
     eof_fired: bool,
     eintr_at_eof: u8,
+    err_after_eof: Option<IoKind>,
+    real_eof_reported: bool,
     limit: u32,
     log: Rc<RefCell<Log>>,
 }
@@ -390,6 +402,8 @@ impl SimSource {
             err_fired: false,
             eof_fired: false,
             eintr_at_eof,
+            err_after_eof: cfg.err_after_eof,
+            real_eof_reported: false,
             limit,
             log,
         }));
@@ -487,6 +501,14 @@ impl Read for SimSource {
                 log.ledger.bump(K::eintr_before_eof);
                 log.event('R', call, buf.len(), "eintr_eof", 0);
                 return Err(io::ErrorKind::Interrupted.into());
+            }
+            if c.pos >= c.data.len() {
+                if let (true, Some(k)) = (c.real_eof_reported, c.err_after_eof) {
+                    log.ledger.bump(K::read_err_after_eof);
+                    log.event('R', call, buf.len(), "err_after_eof", k as usize);
+                    return Err(k.to_std().into());
+                }
+                c.real_eof_reported = true;
             }
             log.ledger.bump(K::eof_polls);
             log.event('R', call, buf.len(), "eof", 0);
@@ -726,6 +748,18 @@ pub fn apply_disk_faults(bytes: &mut Vec<u8>, faults: &[DiskFault], log: &Rc<Ref
                     bytes.extend_from_slice(&tail);
                     log.ledger.bump(K::dup_block);
                     log.event('D', i as u32, at, "dup_block", end - at);
+                }
+            }
+            DiskFault::CopyBlock { from, to, len: l } => {
+                let (from, to, l) = (from as usize, to as usize, l as usize);
+                if from < len && to < len && l > 0 && from != to {
+                    let n = l.min(len - from).min(len - to);
+                    let blk = bytes[from..from + n].to_vec();
+                    if bytes[to..to + n] != blk[..] {
+                        log.ledger.bump(K::copy_block);
+                        log.event('D', i as u32, to, "copy_block", n);
+                    }
+                    bytes[to..to + n].copy_from_slice(&blk);
                 }
             }
             DiskFault::GarbageBlock { at, len: l, seed } => {
